@@ -87,3 +87,16 @@ package amounts
 // Adding two amounts to an Amounts map commutes (exact decimal arithmetic): what a report sums does
 // not depend on the order in which postings arrive.
 //@ commute amounts_add_commute [C05] [C06]: (Amounts).Add shared am
+//
+// SumOver: the exact decimal sum of the amounts whose key passes pred - no rounding: an empty selection
+// gives zero, a single selected entry gives exactly its amount, and the result does not depend on the
+// iteration order of the map (ghost acc mirrors the running sum; exact decimal additions commute).
+//@ func (Amounts).SumOver
+//@   pure pred
+//@   modifies nothing
+//@   ensures [C06] [C02] @none: (forall k Key :: {key(am, k)} (k in am) ==> !pred(k)) ==> result == 0.0
+//@   ensures [C06] [C02] @single: forall k Key :: {key(am, k)} (k in am) && pred(k) && (forall o Key :: {key(am, o)} (o in am) && o != k ==> !pred(o)) ==> result == am[k]
+//@   loop 1 invariant (forall k Key :: {$seen[k]} $seen[k] ==> (k in am))
+//@   loop 1 invariant (forall k Key :: {$seen[k]} $seen[k] ==> !pred(k)) ==> res == 0.0
+//@   loop 1 invariant forall k Key :: {$seen[k]} $seen[k] && pred(k) && (forall o Key :: {key(am, o)} (o in am) && o != k ==> !pred(o)) ==> res == am[k]
+//@   loop 1 invariant forall k Key :: {key(am, k)} (k in am) && !$seen[k] && pred(k) && (forall o Key :: {key(am, o)} (o in am) && o != k ==> !pred(o)) ==> res == 0.0
